@@ -273,7 +273,9 @@ pub fn run_renko(c: &RenkoCase, st: &mut Stats) -> CaseResult {
 		// OHLCV view of the whole output
 		ensure!(out.open().to_bits() == blocks[0].open.to_bits(), "C17:renko:view-open", "step {step}: open() {:e} != first block open {:e}", out.open(), blocks[0].open);
 		ensure!((out.close() as f64 - last.close as f64).abs() <= tol(last.close as f64), "C17:renko:view-close", "step {step}: close() {:e} != last block close {:e}", out.close(), last.close);
-		ensure!(out.high() >= out.low(), "C17:renko:view-hl", "step {step}: high() < low()");
+		// high / low of the view are exactly the larger / smaller of its own open and close
+		ensure!(out.high() == out.open().max(out.close()) && out.low() == out.open().min(out.close()), "C17:renko:view-hl", "step {step}: view open {:e} close {:e} but high {:e} low {:e}", out.open(), out.close(), out.high(), out.low());
+		ensure!((out.gap() as f64 - (out.close() as f64 - out.open() as f64) / out.open() as f64).abs() <= 8.0 * eps() * (n as f64 + 2.0) * (1.0 + b * n as f64), "C17:renko:view-gap", "step {step}: gap() {:e} is not the relative size of the move from {:e} to {:e}", out.gap(), out.open(), out.close());
 		pending_volume = 0.0;
 		if rising {
 			up = last.close as f64;
